@@ -808,3 +808,54 @@ def expected_protected_until_cas(ctx, file_suffixes, rid="GUARD.expected-protect
                 else:
                     ctx.ok(rid, inst, "guard '%s' protects the expected node until the CAS" % g, fn.where(e), fn=fn)
     return n_inst
+
+
+def find_info_paired(ctx, file_suffixes):
+    """HM.find: find() resumes from info.prev, which points INTO the node guarded by info.save (the invariant find() asserts on entry).  In the
+    callers of find() - the retry loops of the insert / erase operations - the protection held by info.save must therefore not be given up
+    (reset / reclaim / moved from / overwritten) on a way to the next find() call unless info.prev is re-pointed in between."""
+    from .progress import _lname
+    rid = "HM.find"
+    n_inst = 0
+    for fn in ctx.facts.fns:
+        if not any(fn.file.endswith(s) for s in file_suffixes) or fn.inlined_helper:
+            continue
+        leafname = fn.pat.split("::")[-1]
+        if leafname == "find" and len(fn.params) >= 3:
+            continue     # the search itself maintains the pair (rule HM.find#prev-with-save)
+        finds, rel, reprev = [], {}, {}
+        for b, i, e, n in fn.events():
+            k = fn.kids(e)
+            if n["k"] == "call" and n.get("callee", "").split("::")[-1] == "find" and n.get("xen") and len(k) >= 3:
+                for a_ in k:
+                    nm = _lname(fn, a_)
+                    if nm and "find_info" in fn.nodes[a_].get("t", ""):
+                        finds.append((e, nm))
+            if n["k"] == "call" and n.get("member") and k:
+                nm = _lname(fn, k[0])
+                leaf = n.get("callee", "?").split("::")[-1]
+                if nm and nm.endswith(".save") and leaf in ("reset", "reclaim", "operator="):
+                    rel.setdefault(nm[:-5], []).append(e)
+            elif n["k"] == "call" and n.get("callee") == "std::move" and k:
+                nm = _lname(fn, k[0])
+                if nm and nm.endswith(".save") and _consumed(fn, e):
+                    rel.setdefault(nm[:-5], []).append(e)
+            elif n["k"] == "bin" and n.get("op") == "=" and k:
+                nm = _lname(fn, k[0])
+                if nm and nm.endswith(".prev"):
+                    reprev.setdefault(nm[:-5], []).append(e)
+        for f_ev, info in finds:
+            n_inst += 1
+            bad = None
+            for r in rel.get(info, []):
+                if _reaches_without(fn, r, f_ev, set(reprev.get(info, []))):
+                    bad = r
+                    break
+            inst = "%s#%s.save-held-until-find@%d" % (fn.pat, info, fn.nodes[f_ev].get("l", 0)) if bad is not None else "%s#%s.save-held-until-find" % (fn.pat, info)
+            ctx.check(bad is None, rid, inst, "no release of %s.save reaches this find() without %s.prev being re-pointed" % (info, info),
+                      "%s.save gives up its protection at line %d (%s) and find() is then called again with the old %s.prev, which points into the node that guard "
+                      "protected: the node can be reclaimed and re-used in between, and the search resumes inside a foreign node (elements linked out of order / "
+                      "use-after-free)" % (info, fn.nodes[bad].get("l", 0) if bad is not None else 0, fn.expr(bad)[:50] if bad is not None else "", info),
+                      fn.where(f_ev), fn=fn)
+    if n_inst < 6:
+        ctx.broken.append("HM.find#save-held-until-find: only %d find() call sites with a find_info recognised" % n_inst)
